@@ -690,7 +690,10 @@ def gen_C16(rng, tier):
     for k in DIST_KEYS:
         if k in d["cfg"]:
             d["cfg"][k] = round(d["cfg"][k] * 64) / 64 or 1 / 64
-    d["transform"] = {"kind": tr, "salt": rng.randrange(1 << 30), "k": rng.randint(-6, 12),
+    k = rng.randint(-6, 12)
+    if tr == "scale" and rng.random() < 0.15:
+        k = rng.randint(-18, -11)      # very small units: the repository's absolute tolerances come into play (D18)
+    d["transform"] = {"kind": tr, "salt": rng.randrange(1 << 30), "k": k,
                       "dy": float(rng.randrange(-2 ** 18, 2 ** 18)), "dx": float(rng.randrange(-2 ** 18, 2 ** 18))}
     return d
 
@@ -795,6 +798,11 @@ def eval_C16(doc):
         if c.startswith("diff"):
             if tie_upstream(doc["cfg"], a, b):
                 stats["inconclusive_tie_upstream"] = 1
+            elif kind == "scale" and t["k"] <= -10:
+                # listed finding D18: with roads shorter than about 1e-3 units the absolute 1e-8 tolerances of the
+                # planar geometry (parallel test on the cross product, zero-length test) change the answers
+                vs.append(oa.V("C16/scale/absolute-tolerance-at-small-scale", "k=%d %s: %r vs %r" % (
+                    t["k"], c, (oa_.obs["idx"], oa_.obs["bestE"]), (oo["idx"], oo["bestE"])), oa_))
             elif kind in ("scale", "swap", "translate") and (threshold_fragile(d1["cfg"], a) or threshold_fragile(d2["cfg"], b)):
                 # a state lies within rounding distance of a cut-off (e.g. exactly max_dist away on a grid):
                 # the transformation changes the last bits of the distance and the exact comparison flips
